@@ -544,6 +544,8 @@ def classify(tree, env, failure, style='min'):
 
 
 def number_form(text):
+    if len(text) > 1 and text[0] == '0' and text[1].isdigit():
+        return 'leading-zeros'
     if 'E' in text or 'e' in text:
         return 'scientific'
     return 'decimal' if '.' in text else 'integer'
@@ -775,7 +777,9 @@ ALPHABET = ['"', '\\', '\n', '\r', '\t', '{', '}', "'", '%', '#', '&', '=', ' ',
             '0', 'é', '日', '\U0001F600']
 NUMBER_SPELLINGS = ['0', '1', '7', '12', '100', '255', '65536', '1000000', '0.5', '0.25', '1.5',
                     '3.14159', '123.456', '0.001', '1.5E-3', '1.5E-03', '1E+20', '2.5E+15', '1E-20',
-                    '9.99E+5', '1E+2', '6.02E+23']
+                    '9.99E+5', '1E+2', '6.02E+23',
+                    # spellings Excel accepts as typed: leading zeros, a zero mantissa, bare decimal points, e
+                    '007', '00', '010', '007.50', '0.50', '0E3', '0e0', '0.0E3', '1.', '.5', '1e2', '10E2']
 DIRECTED_TEXT = ['#EMPTY!', '\\n', 'a\\nb', '\\', 'a\\', '\\"', 'C:\\dir\\file', 'line1\nline2',
                  'tab\there', '{1,2;3,4}', "it's", '50%', 'TRUE', '=1+1', '""', 'a""b',
                  '\\x41', '\\u0041', '\\N{BULLET}', '\\101', "\\'", 'x\r\ny', ' lead', 'trail ',
@@ -865,7 +869,7 @@ FLOORS = {
     'quick': {'depth1': 2380, 'depth2-one-inner': 43000, 'depth2-two-inner': 32000,
               'function-call': 4100, 'function-as-operand': 1100, 'oracle:determinate': 70000,
               'oracle:error-value': 2800, 'rendering:min': 83000, 'rendering:full': 83000,
-              'text-literal': 1300, 'number-literal': 88, 'error-literal': 56, 'route:workbook': 1500,
+              'text-literal': 1300, 'number-literal': 136, 'error-literal': 56, 'route:workbook': 1500,
               'sampled-trees': 400, 'text-order': 486},
     'thorough': {'depth2-one-inner': 43000, 'depth2-two-inner': 32000, 'depth3-chain': 560000,
                  'function-call': 4100, 'oracle:determinate': 400000, 'rendering:min': 640000,
